@@ -3,7 +3,7 @@
    NV.Bam.Decode (io/reader/record.rs, record/codec/decoder*.rs, slices of record_ref.rs),
    bin = NV.Index.Bins.reg2bin 14 5 (shared with C17). *)
 From Coq Require Import List NArith ZArith Bool Lia ZifyBool ZifyNat ZifyN.
-From NV Require Import Index.Bins Bam.Record Bam.Encode Bam.Decode Bam.Lazy Bam.CodecProofs Bam.AuxProofs Bam.LazyProofs Bam.LazyCigarProofs Bam.LazyDataProofs Bam.LazySwitchProofs Bam.LazyErr Bam.LazyErrProofs Bam.LazyErrIffProofs Bam.Subseq Bam.SubseqProofs Bam.RewriteProofs Bam.LazyRewrite Bam.LazyRewriteProofs Bam.File Bam.FileProofs Bam.FileBgzf Bam.FileBgzfProofs Bam.FileSchedProofs Bam.Reuse Bam.ReuseProofs.
+From NV Require Import Index.Bins Bam.Record Bam.Encode Bam.Decode Bam.Lazy Bam.CodecProofs Bam.AuxProofs Bam.LazyProofs Bam.LazyCigarProofs Bam.LazyDataProofs Bam.LazySwitchProofs Bam.LazyErr Bam.LazyErrProofs Bam.LazyErrIffProofs Bam.Subseq Bam.SubseqProofs Bam.SeqIter Bam.SeqIterProofs Bam.RewriteProofs Bam.LazyRewrite Bam.LazyRewriteProofs Bam.File Bam.FileProofs Bam.FileBgzf Bam.FileBgzfProofs Bam.FileSchedProofs Bam.Reuse Bam.ReuseProofs.
 From NV Require Sam.Header Sam.HeaderProofs Sam.BamHeader Bgzf.Frame Bgzf.Writer Bgzf.Reader Bgzf.Inflate Io.Source Io.ReadExactProofs Io.Run.
 Import ListNotations.
 Open Scope N_scope.
@@ -720,8 +720,8 @@ Proof. vm_compute. repeat split; reflexivity. Qed.
    case-folded / N-mapped bases are the codes of the original bases, the user CG field is skipped
    by the encoder anyway, and a > 65535-operation CIGAR is stored through kSmN + CG again).
    (The DIRECT re-write of a lazy bam::Record - encoder paths CigarRef::FourBytePacked,
-   SequenceRef::FourBitPacked, QualityScoresRef::Raw, DataRef::FieldEncoded - is not modelled;
-   it is checked by the implementation-side oracle of every `rec`/`rw` case only.) *)
+   SequenceRef::FourBitPacked, QualityScoresRef::Raw, DataRef::FieldEncoded - is modelled and
+   proved in the next section, c05_lazy_rewrite_identity.) *)
 Theorem c05_rewrite_eager_identity :
   forall nref r block,
     wf r -> wf_data (r_data r) -> NoDup (map fst (r_data r)) ->
@@ -770,3 +770,75 @@ Example c05_example_lazy_rewrite :
   exists block, encode 1 ex_rw_rec = Ok block /\ lazy_rewrite 1 (skipN 4 block) = Some (Ok block) /\
     lenN block = 74.
 Proof. eexists. split; [vm_compute; reflexivity|]. split; vm_compute; reflexivity. Qed.
+
+(* ------------------------------------------------------------------------------------------
+   THE SEQUENCE ITERATOR AS A STATE MACHINE (wave 10; model NV.Bam.SeqIter of
+   record/sequence/iter.rs: the struct { iter, front, back }, Iter::new with its slice-index panic,
+   Iterator::next, DoubleEndedIterator::next_back, size_hint = ExactSizeIterator::len).  This is the
+   iterator behind Sequence::iter() and behind both halves of Sequence::split_at_checked.
+   For EVERY schedule of next / next_back calls the iterator over [start, end) is a double-ended
+   queue over exactly the bases [start, end) of the unpacked buffer: next pops the front, next_back
+   pops the back, None once (and for ever after) the queue is empty, no base is delivered twice or
+   skipped where the two ends meet, and size_hint is the exact number of bases left after every
+   call; Iter::new does not panic when end <= 2 * len(buffer). *)
+Theorem c05_seq_iter_any_schedule :
+  forall packed s e sched, s <= e -> e <= 2 * lenN packed ->
+    seq_iter_run packed s e sched = Some (e - s, deque_run sched (window packed s e)).
+Proof. exact seq_iter_any_schedule. Qed.
+Print Assumptions c05_seq_iter_any_schedule.
+
+(* Iter::new panics (bases[i..j]) exactly for a non-empty range whose last byte is beyond the buffer *)
+Theorem c05_seq_iter_new_panic_iff :
+  forall packed s e, sit_new packed s e = None <-> (s < e /\ lenN packed < (e + 1) / 2).
+Proof. exact sit_new_panic_iff. Qed.
+Print Assumptions c05_seq_iter_new_panic_iff.
+
+(* the state-level statement: from any state in which front and back hold at most one base each
+   (true after Iter::new and preserved by both calls) the run is the queue run over the contents *)
+Theorem c05_seq_iter_state_machine :
+  (forall packed s e st, sit_new packed s e = Some st -> sit_contents st = sub_iter packed s e /\ sit_inv st) /\
+  (forall st, sit_inv st ->
+     fst (sit_next st) = fst (pop_front (sit_contents st)) /\
+     sit_contents (snd (sit_next st)) = snd (pop_front (sit_contents st)) /\ sit_inv (snd (sit_next st))) /\
+  (forall st, sit_inv st ->
+     fst (sit_next_back st) = fst (pop_back (sit_contents st)) /\
+     sit_contents (snd (sit_next_back st)) = snd (pop_back (sit_contents st)) /\ sit_inv (snd (sit_next_back st))) /\
+  (forall st, sit_size_hint st = lenN (sit_contents st)) /\
+  (forall sched st, sit_inv st -> sit_run sched st = deque_run sched (sit_contents st)).
+Proof.
+  split; [exact sit_new_spec|]. split; [exact sit_next_spec|]. split; [exact sit_next_back_spec|].
+  split; [exact sit_size_hint_exact|exact sit_run_is_deque].
+Qed.
+Print Assumptions c05_seq_iter_state_machine.
+
+(* LAZY = EAGER for the iterator: on every validated body, sequence().iter() driven by any schedule
+   is the queue over the (lazily = eagerly, c05_lazy_eq_eager) decoded sequence, and for mid <= l_seq
+   the iterators of the halves of split_at_checked(mid) are the queues over its first mid bases and
+   over the rest *)
+Theorem c05_lazy_sequence_iter_any_schedule :
+  forall bs, validate bs = Ok tt ->
+    (forall sched, seq_iter_run (lz_seq_raw bs) 0 (lz_lseq bs) sched =
+                   Some (lz_lseq bs, deque_run sched (lz_seq bs))) /\
+    (forall mid sched, mid <= lz_lseq bs ->
+       seq_iter_run (lz_seq_raw bs) 0 mid sched = Some (mid, deque_run sched (firstnN mid (lz_seq bs))) /\
+       seq_iter_run (lz_seq_raw bs) mid (lz_lseq bs) sched =
+         Some (lz_lseq bs - mid, deque_run sched (skipN mid (lz_seq bs)))).
+Proof. exact lazy_sequence_iter_any_schedule. Qed.
+Print Assumptions c05_lazy_sequence_iter_any_schedule.
+
+(* iter().rev() yields the reversed sequence, iter() the sequence *)
+Theorem c05_seq_iter_rev :
+  forall l, map fst (deque_run (repeat true (length l)) l) = map Some (rev l) /\
+            map fst (deque_run (repeat false (length l)) l) = map Some l.
+Proof. intros l. split; [apply deque_run_all_back|apply deque_run_all_front]. Qed.
+Print Assumptions c05_seq_iter_rev.
+
+(* non-vacuity, and why the invariant is needed: 5 bases, window [1, 4), schedule back, front, back,
+   back; and a state no public call sequence reaches (front holding two bases, nothing else) where
+   next_back hands out the FIRST of them (the source's last resort is front.next()) *)
+Example c05_example_seq_iter :
+  seq_iter_run (pack_bases [65; 67; 71; 84; 65]) 1 4 [true; false; true; true] =
+    Some (3, [(Some 84, 2); (Some 67, 1); (Some 71, 0); (None, 0)]) /\
+  seq_iter_run (pack_bases [65; 67; 71; 84; 65]) 1 7 [] = None /\
+  fst (sit_next_back (mk_sit [] (Some [65; 67]) None)) = Some 65.
+Proof. vm_compute. repeat split; reflexivity. Qed.
